@@ -10,6 +10,7 @@ PLANS = {
     "C05": {"profiles": ["c05_fault_sweep"], "quick": 5000, "thorough": 100000},
     "C18": {"profiles": ["c18_yson"], "quick": 2000, "thorough": 80000},
     "C10": {"profiles": ["c10_compaction"], "quick": 3000, "thorough": 60000},
+    "C11": {"profiles": ["c11_lifecycle"], "quick": 8000, "thorough": 200000},
     "C14": {"profiles": ["c14_undo_exact", "c14_undo_approx"], "quick": 5000, "thorough": 100000},
     "C12": {"profiles": ["c12_presence", "c12_presenceless"], "quick": 2500, "thorough": 100000},
     "C08": {"profiles": ["c08_atomic_update"], "quick": 5000, "thorough": 100000},
